@@ -189,7 +189,12 @@ func compare(s store, model map[string]string, keys []string) string {
 			return fmt.Sprintf("key %q: got %q, want nothing", k, got)
 		}
 	}
+	mk := make([]string, 0, len(model))
 	for k := range model {
+		mk = append(mk, k)
+	}
+	sort.Strings(mk) // deterministic messages (rapid gives up shrinking when they vary)
+	for _, k := range mk {
 		if got := s.get(k); len(got) != 1 || got[0] != model[k] {
 			return fmt.Sprintf("key %q: got %q, want [%q]", k, got, model[k])
 		}
